@@ -1,5 +1,6 @@
 import Tickit.Model.WinFocus
 import Tickit.Proof.WinFocus
+import Tickit.Proof.WinFocusReq
 import Tickit.Driver.Common
 import Tickit.Gen.WinFocusSrc
 /-
@@ -237,6 +238,28 @@ def specFocus (before after : ImplObs) (win : Id) : String :=
           else ""
       | none => ""
 
+/-- Operations that must not move the focus: the flush (it applies queued restacking, paints and restores), restacking
+    requests, the cursor setters, the notification switch, expose and geometry changes.  (`take_focus` moves it and tells
+    the windows; `show`, `hide`, `close`, `unref` relink the chain.)  Theorems: `ChainSame` for these operations in
+    Proof/WinFocusReq.lean / WinFocusHist.lean. -/
+def keepsFocus (op : String) : Bool :=
+  ["flush", "raise", "raisefront", "lower", "lowerback", "curpos", "curvis", "curshape", "curblink", "notify", "expose",
+   "exposer", "geom", "repos", "resize", "ref"].contains op
+
+/-- The focus did not move silently: the focus chain from the root and the `is_focused` flags along it are what they
+    were.  Evaluated on the implementation's observations before and after the operation. -/
+def specKeepsFocus (op : String) (before after : ImplObs) : String :=
+  let cb := chainList before.tree (treeFuel before.tree) 0
+  let ca := chainList after.tree (treeFuel after.tree) 0
+  if cb ≠ ca then
+    let shw (l : List Id) := "→".intercalate (l.map toString)
+    s!"the focus moved during `{op}` without any focus event: focus chain {shw cb} before, {shw ca} after"
+  else
+    let foc (t : Tree) (i : Id) : Bool := match t.wins[i]? with | some w => w.isFocused | none => false
+    match cb.find? (fun i => foc before.tree i ≠ foc after.tree i) with
+    | some i => s!"window {i} on the focus chain changed is_focused during `{op}` without any focus event"
+    | none => ""
+
 /-! ### stepping the model -/
 
 def detached (st : St) : Nat → Id → Bool
@@ -380,10 +403,22 @@ def step (st : St) (ts : List String) (impl : String) : St × String × String :
              | some b, some a, some id => specFocus b a id
              | _, _, _ => if impl.startsWith "ok" then "unparsable implementation observation" else "")
           | _ => ""
+        let sv := if sv ≠ "" then sv else
+          match ts with
+          | op :: _ =>
+            if keepsFocus op then
+              (match parseImpl st.prev, parseImpl impl with
+               | some b, some a => specKeepsFocus op b a
+               | _, _ => "")
+            else ""
+          | [] => ""
         -- the hypothesis of the theorems, evaluated on every tree the real library is observed in
         let sv := if sv ≠ "" then sv else
           match parseImpl impl with
-          | some o => if wfB o.tree then "" else "the observed tree violates the store invariant wfB (parent/children consistency, chain_visible)"
+          | some o =>
+            if !wfB o.tree then "the observed tree violates the store invariant wfB (parent/children consistency, chain_visible)"
+            else if !good15B o.tree then "the observed tree violates the structural invariants of Good15 (child lists, root window)"
+            else ""
           | none => ""
         ({ st' with prev := impl }, m, sv)
 
